@@ -20,6 +20,13 @@ InvValidSplit == IsValidSplit(v, M, Steps)
 InvStepsFit == \A i \in 1..Len(Steps) : Steps[i] <= M
 \* minimality: one step less could not carry the volume
 InvMinimal == v > 0 => (Len(Steps) - 1) * M < v
+\* link to the unbounded TLAPS lemma proofs/SplitValid: the quantities RefSplitG computes satisfy the lemma's hypotheses
+\* (checked here on the instance; the lemma then gives validity for every v and M)
+InvLemmaHypotheses ==
+  (v >= M /\ Cap) =>
+     LET n == CeilDiv(v, M)  raw == CeilDiv(v, n * K) * K IN
+     /\ n >= 1 /\ (n - 1) * M < v /\ v <= n * M /\ raw * n >= v
+     /\ Steps = [i \in 1..n |-> IF i < n THEN Min(raw, M) ELSE v - (n - 1) * Min(raw, M)]
 \* multi-dispense reduction of reagent distributions
 InvMultiDisp == \A md0 \in 1..8 : (v > 0 /\ v <= M) => MultiDispOK(md0, v, M, RefMultiDisp(md0, v, M))
 =============================================================================
